@@ -1,7 +1,7 @@
 //@ unit: C12.handlers
 //@ props: C12
 //@ source: src/dap/yadap/session/control.rs
-//@ fn: DebugSession::handle_continue, DebugSession::handle_next, DebugSession::handle_step_in, DebugSession::handle_step_out, DebugSession::handle_configuration_done
+//@ fn: DebugSession::handle_continue, DebugSession::handle_next, DebugSession::handle_step_in, DebugSession::handle_step_out, DebugSession::handle_configuration_done, DebugSession::handle_restart, DebugSession::handle_pause, DebugSession::handle_terminate, DebugSession::handle_disconnect
 //@ assume: send_success_body appends exactly one response for `req` (send_response_raw: unit C12.wire, E_rsp) or fails with the transport; enqueue_event, drain_events, begin_running, current_thread_id and emit_stop_reason append no response (events only); emit_stop_reason and continue_debugee_with_reason may fail for debugger reasons
 //@ assume: signature substitution anyhow::Result<()> -> Result<(), AnyErr>; `json!`, `anyhow!`, `.context(..)` outlined
 //@ notcovered: the other handlers (each would need its own outline set); this unit is the evidence for the dispatch contract assumed by C12.wire: a handler answers at most once, exactly once when it returns Ok, and handle_continue answers BEFORE it can fail
@@ -32,6 +32,10 @@ impl Dbg {
     pub fn step_into(&mut self) -> (r: Result<(), DErr>) { unimplemented!() }
     #[verifier::external_body]
     pub fn step_out(&mut self) -> (r: Result<(), DErr>) { unimplemented!() }
+    #[verifier::external_body]
+    pub fn pause_debugee(&mut self) -> (r: Result<(), DErr>) { unimplemented!() }
+    #[verifier::external_body]
+    pub fn detach(&mut self) -> (r: Result<(), AnyErr>) { unimplemented!() }
 }
 
 pub struct DebugSession {
@@ -67,6 +71,19 @@ impl DebugSession {
         ensures final(self).answered@ == old(self).answered@, final(self).answered_others@ == old(self).answered_others@, final(self).io_failed@ == old(self).io_failed@, final(self).succ@ == old(self).succ@, final(self).started@ == old(self).started@, final(self).attach@ == old(self).attach@,
             final(self).continued@ == old(self).continued@ + (if ev is Continued { 1nat } else { 0nat }),
     { unimplemented!() }
+    /// `self.session_mode != Some(super::init::SessionMode::Launch)`
+    #[verifier::external_body]
+    fn outline_not_launch(&self) -> (r: bool) { unimplemented!() }
+    /// `self.debugger.as_mut()`
+    #[verifier::external_body]
+    fn outline_debugger_opt(&mut self) -> (r: Option<&mut Dbg>) ensures quiet_step(old(self), final(self)), { unimplemented!() }
+    /// `self.debugger.take()`
+    #[verifier::external_body]
+    fn outline_take_debugger(&mut self) -> (r: Option<Dbg>) ensures quiet_step(old(self), final(self)), { unimplemented!() }
+    #[verifier::external_body]
+    fn terminate_debuggee(&mut self) ensures quiet_step(old(self), final(self)), { unimplemented!() }
+    #[verifier::external_body]
+    fn outline_wants_terminate(req: &DapRequest) -> (r: bool) { unimplemented!() }
     /// `self.debugger.is_none()`
     #[verifier::external_body]
     fn outline_no_debugger(&self) -> (r: bool) { unimplemented!() }
@@ -95,7 +112,7 @@ impl DebugSession {
     #[verifier::external_body]
     fn outline_set_last_stop(&mut self) ensures quiet_step(old(self), final(self)), { unimplemented!() }
     #[verifier::external_body]
-    fn send_err(&mut self, req: &DapRequest, message: String) -> (r: Result<(), AnyErr>)
+    fn send_err<M>(&mut self, req: &DapRequest, message: M) -> (r: Result<(), AnyErr>)
         ensures final(self).answered_others@ == old(self).answered_others@, final(self).succ@ == old(self).succ@, final(self).continued@ == old(self).continued@,
             r is Ok ==> final(self).answered@ == old(self).answered@ + 1 && final(self).io_failed@ == old(self).io_failed@,
             r is Err ==> final(self).answered@ == old(self).answered@ && final(self).io_failed@,
@@ -185,6 +202,46 @@ impl DebugSession {
 //@   outline O_none: `self.debugger.is_none()` => `self.outline_no_debugger()`
 //@   outline O_any: `Err(anyhow!($m))` => `Err(AnyErr)`
 //@   outline O_start: `dbg.start_debugee_with_reason().context("start debugee")?` => `self.outline_start()?`
+//@ end
+
+//@ extract: impl super::DebugSession / fn handle_restart
+//@   sig: pub fn handle_restart(&mut self, req: &DapRequest) -> (r: Result<(), AnyErr>)
+//@   ensures E_hr_others: final(self).answered_others@ == old(self).answered_others@
+//@   ensures E_hr_at_most_once: !final(self).io_failed@ ==> old(self).answered@ <= final(self).answered@ <= old(self).answered@ + 1
+//@   ensures E_hr_once: !final(self).io_failed@ && r is Ok ==> final(self).answered@ == old(self).answered@ + 1
+//@   ensures E_hr_truthful: final(self).succ@ > old(self).succ@ ==> final(self).started@
+//@   requires R_hr_fresh: !old(self).started@
+//@   outline O_mode: `self.session_mode != Some(super::init::SessionMode::Launch)` => `self.outline_not_launch()`
+//@   outline O_dbg: `self .debugger .as_mut() .ok_or_else(|| anyhow!($m))?` => `self.outline_debugger()?`
+//@   outline O_start: `dbg .start_debugee_force_with_reason() .context("restart debugee")?` => `self.outline_start()?`
+//@ end
+
+//@ extract: impl super::DebugSession / fn handle_pause
+//@   sig: pub fn handle_pause(&mut self, req: &DapRequest) -> (r: Result<(), AnyErr>)
+//@   ensures E_hp_others: final(self).answered_others@ == old(self).answered_others@
+//@   ensures E_hp_at_most_once: !final(self).io_failed@ ==> old(self).answered@ <= final(self).answered@ <= old(self).answered@ + 1
+//@   ensures E_hp_once: !final(self).io_failed@ && r is Ok ==> final(self).answered@ == old(self).answered@ + 1
+//@   outline O_opt: `self.debugger.as_mut()` => `self.outline_debugger_opt()`
+//@   outline O_s1: `"pause".to_string()` => `outline_step_str()`
+//@   outline O_s2: `"Paused".to_string()` => `outline_step_str()`
+//@   outline O_fmt: `format!("pause failed: {e}")` => `outline_fmt(&e)`
+//@ end
+
+//@ extract: impl super::DebugSession / fn handle_terminate
+//@   sig: pub fn handle_terminate(&mut self, req: &DapRequest) -> (r: Result<(), AnyErr>)
+//@   ensures E_ht_others: final(self).answered_others@ == old(self).answered_others@
+//@   ensures E_ht_at_most_once: !final(self).io_failed@ ==> old(self).answered@ <= final(self).answered@ <= old(self).answered@ + 1
+//@   ensures E_ht_once: !final(self).io_failed@ && r is Ok ==> final(self).answered@ == old(self).answered@ + 1
+//@ end
+
+//@ extract: impl super::DebugSession / fn handle_disconnect
+//@   sig: pub fn handle_disconnect(&mut self, req: &DapRequest) -> (r: Result<(), AnyErr>)
+//@   ensures E_hd_others: final(self).answered_others@ == old(self).answered_others@
+//@   ensures E_hd_at_most_once: !final(self).io_failed@ ==> old(self).answered@ <= final(self).answered@ <= old(self).answered@ + 1
+//@   ensures E_hd_once: !final(self).io_failed@ && r is Ok ==> final(self).answered@ == old(self).answered@ + 1
+//@   outline O_arg: `req .arguments .get("terminateDebuggee") .and_then(|v| v.as_bool()) .unwrap_or(false)` => `Self::outline_wants_terminate(req)`
+//@   outline O_take: `self.debugger.take()` => `self.outline_take_debugger()`
+//@   outline O_det: `dbg.detach().context("detach debuggee")?` => `dbg.detach()?`
 //@ end
 }
 
